@@ -11,7 +11,7 @@ RULE = ("each case runs one seeded script twice in fresh worlds: through the git
         "coincide (logical clock), so notes are compared per commit id (files, sessions, line sets, prompt ids) and blame per file; both runs "
         "are also checked against the ledger. non-trivial = at least one note with AI lines compared and a rewrite op ran; distinct = op sequences")
 
-OPS = ["commit", "commit", "partial", "amend", "rebase", "cherry", "cherry-abandon", "reset", "stash", "squash", "switch"]
+OPS = ["commit", "commit", "partial", "amend", "rebase", "cherry", "cherry-abandon", "reset", "stash", "squash", "switch", "pull"]
 
 
 def script(sc):
@@ -50,6 +50,8 @@ def script(sc):
             sc.do_edit(); sc.op_stash(how=None if sc.profile.get("hooks_stash_apply", True) else "pop")
         elif op == "switch":
             sc.do_edit(); sc.op_switch_carry()
+        elif op == "pull":
+            sc.op_pull()
         sc.after_step("op %d %s" % (k, op))
         if sc.viol or sc.inconclusive:
             return
@@ -113,12 +115,15 @@ def run_case(case):
             return C.finish(a, prof, index)
         sa, sb = full_snapshot(a), full_snapshot(b)
         for part in ("notes", "prompts", "blame"):
-            if sa[part] != sb[part]:
-                keys = sorted(set(sa[part]) | set(sb[part]))
-                diff = [(str(k)[:12], sa[part].get(k), sb[part].get(k)) for k in keys if sa[part].get(k) != sb[part].get(k)][:3]
+            # a commit without a note and a commit whose note lists nothing / has no prompt record are equivalent (nothing is attributed)
+            na = {k: v for k, v in sa[part].items() if v} if part != "blame" else sa[part]
+            nb = {k: v for k, v in sb[part].items() if v} if part != "blame" else sb[part]
+            if na != nb:
+                keys = sorted(set(na) | set(nb))
+                diff = [(str(k)[:12], na.get(k), nb.get(k)) for k in keys if na.get(k) != nb.get(k)][:3]
                 a.violation("C13/%s-differ" % part, diff=diff, heads=(a.head(), b.head()))
         a.stats["commits_compared"] += len(sa["notes"])
-        nontrivial = any(v for v in sa["notes"].values()) and any(o.split(":")[0] in ("rebase", "cherry-pick", "amend", "reset", "stash", "merge", "switch") for o in a.ops)
+        nontrivial = any(v for v in sa["notes"].values()) and any(o.split(":")[0] in ("rebase", "cherry-pick", "amend", "reset", "stash", "merge", "switch", "pull") for o in a.ops)
         return C.finish(a, prof, index, nontrivial=nontrivial)
     finally:
         a.destroy()
